@@ -78,11 +78,76 @@ def disease_cfg(rng, d):
     return c
 
 
-def build(cfg, **kw):
-    """ impl.build_sim, with maternal-network betas spelled out when needed """
-    import starsim as ss
-    sim = impl.build_sim(cfg, **kw)
+def all_active(sim):
+    return sim.people.auids
+
+
+class Cohort:
+    """ eligibility = the active agents of an explicit uid range (a fixed enrolled group, whatever their infection status) """
+    def __init__(self, lo, hi): self.lo = lo; self.hi = hi
+    def __call__(self, sim):
+        import starsim as ss
+        a = np.asarray(sim.people.auids)
+        return ss.uids(a[(a >= self.lo) & (a < self.hi)])
+
+
+def make_treatment(t):
+    """ JSON-able treatment spec -> intervention (eligibility is deliberately WIDER than the product's pre-treatment states) """
+    import starsim as ss, pandas as pd
+    kind = t['kind']
+    if kind == 'tx':      # generic ss.Tx product + capacity-limited queue
+        df = pd.DataFrame([dict(name='cure', disease=r[0], state=r[1], efficacy=r[3], post_state=r[2]) for r in t['rows']])
+        elig = Cohort(*t['cohort']) if t.get('cohort') else all_active
+        return ss.treat_num(product=ss.Tx(df), prob=t.get('prob', 0.5), max_capacity=t.get('max_capacity'), eligibility=elig)
+    if kind == 'syph':
+        return ss.syph_treatment(product='bpg', prob=t.get('prob', 0.5), max_capacity=t.get('max_capacity'), eligibility=all_active)
+    raise ValueError(kind)
+
+
+def build(cfg, extra_interventions=None, **kw):
+    """ impl.build_sim plus the treatment interventions named in cfg['treatments'] """
+    intv = list(extra_interventions or []) + [make_treatment(t) for t in cfg.get('treatments', [])]
+    sim = impl.build_sim(cfg, extra_interventions=intv or None, **kw)
     return sim
+
+
+def scenario_cfgs(rng):
+    """ Fixed scenario families that every run exercises (next to the random per-disease configurations) """
+    out = []
+    base = lambda **k: dict(dict(n_agents=150, rand_seed=rng.randint(0, 10_000), unit='year', dt=1.0, start=2000,
+                                 networks=[dict(type='random', n_contacts=4, dur=0)], demographics=[]), **k)
+    # treatment product with a capacity-limited queue, acceptance < 1, eligibility wider than the treated state
+    out.append(base(dur=18, diseases=[dict(type='sir', beta=0.3, init_prev=0.2, dur_inf=8, p_death=0.05)],
+                    demographics=[dict(type='deaths', death_rate=40)],
+                    treatments=[dict(kind='tx', rows=[['sir', 'infected', 'recovered', 0.9]], prob=0.5, max_capacity=rng.choice([8, 15]))]))
+    # a small explicit-uid cohort signing up faster than the clinic's capacity: long-lived backlog, repeated sign-ups
+    out.append(base(n_agents=200, unit='day', dt=1, start='2020-01-01', dur=60,
+                    diseases=[dict(type='sir', beta=0.05, init_prev=0.05, dur_inf=20, p_death=0.2)],
+                    demographics=[dict(type='deaths', death_rate=100)],
+                    treatments=[dict(kind='tx', rows=[['sir', 'infected', 'recovered', 1.0]], prob=rng.choice([0.3, 0.4]),
+                                     max_capacity=rng.choice([8, 10]), cohort=[100, 140])]))
+    out.append(base(dur=20, diseases=[dict(type='sis', beta=0.3, init_prev=0.3, dur_inf=6)],
+                    treatments=[dict(kind='tx', rows=[['sis', 'infected', 'susceptible', 0.8]], prob=0.6, max_capacity=rng.choice([10, 20]))]))
+    # one product covering two co-circulating diseases that share a state name but differ in the post-treatment state
+    out.append(base(dur=20, diseases=[dict(type='sir', beta=0.3, init_prev=0.2, dur_inf=8, p_death=0.0),
+                                      dict(type='sis', beta=0.3, init_prev=0.2, dur_inf=6)],
+                    treatments=[dict(kind='tx', rows=[['sir', 'infected', 'recovered', 0.9], ['sis', 'infected', 'susceptible', 0.9]],
+                                     prob=0.5, max_capacity=rng.choice([12, 30]))]))
+    # syphilis with the built-in treatment product (long history: stages up to latent/tertiary are reached and treated)
+    out.append(base(n_agents=200, dur=32, diseases=[dict(type='syphilis', beta=0.5, init_prev=0.3)],
+                    treatments=[dict(kind='syph', prob=0.3, max_capacity=rng.choice([10, 25]))]))
+    # two instances of one class in one sim
+    out.append(base(dur=12, diseases=[dict(type='sir', name='sir_a', beta=0.3, init_prev=0.2, dur_inf=3, p_death=0.2),
+                                      dict(type='sir', name='sir_b', beta=0.1, init_prev=0.1, dur_inf=6, p_death=0.0)],
+                    demographics=[dict(type='deaths', death_rate=60)]))
+    # long reinfection histories
+    out.append(base(unit='day', dt=1, start='2020-01-01', dur=70, diseases=[dict(type='gonorrhea', beta=0.6, init_prev=0.3, p_clear=0.8)]))
+    out.append(base(dur=60, dt=0.5, diseases=[dict(type='sis', beta=0.5, init_prev=0.2, dur_inf=2)],
+                    demographics=[dict(type='deaths', death_rate=30)]))
+    # boundary values: nobody / everybody infected at the start, certain death
+    out.append(base(dur=8, diseases=[dict(type='sir', beta=0.3, init_prev=0.0, dur_inf=3, p_death=0.0)]))
+    out.append(base(dur=8, diseases=[dict(type='sir', beta=0.3, init_prev=1.0, dur_inf=2, p_death=1.0)]))
+    return out
 
 
 # ---------------------------------------------------------------------------
@@ -98,8 +163,9 @@ class Recorder:
     with Recorder(facts, on_call) as rec:  run a sim; `on_call(call)` is invoked after every top-level disease-method call.
     `facts`: {disease name: extractor facts}; used for the flag order and to know which atoms to evaluate.
     """
-    def __init__(self, facts, on_call, eval_atoms=True, on_entry=None):
+    def __init__(self, facts, on_call, eval_atoms=True, on_entry=None, on_outside=None):
         self.facts = facts; self.on_call = on_call; self.eval_atoms = eval_atoms; self.on_entry = on_entry
+        self.on_outside = on_outside
         self.depth = {}         # id(disease) -> nesting depth of wrapped calls
         self.cur = None         # the Call being recorded
         self.ddepth = 0
@@ -156,11 +222,24 @@ class Recorder:
                 rec.errors.append(f'filter probe: {e}')
             return out
         D.rvs = rvs_w; B.filter = filter_w
+        # flag writers outside the disease classes
+        self.outside = []
+        self.odepth = 0
+        for label, C, m in [('Tx.administer', ss.Tx, 'administer'), ('syph_treatment.step', ss.syph_treatment, 'step'),
+                            ('ART.step', ss.ART, 'step'), ('Syphilis.set_congenital', ss.Syphilis, 'set_congenital'),
+                            ('Vx.administer', ss.Vx, 'administer'), ('Dx.administer', ss.Dx, 'administer')]:
+            had = m in C.__dict__
+            orig = getattr(C, m)
+            setattr(C, m, self._wrap_outside(label, orig))
+            self.outside.append((C, m, had, orig))
         return self
 
     def __exit__(self, *exc):
         import starsim as ss
         for C, m, had, orig in reversed(self.patched):
+            if had: setattr(C, m, orig)
+            else: delattr(C, m)
+        for C, m, had, orig in reversed(self.outside):
             if had: setattr(C, m, orig)
             else: delattr(C, m)
         ss.Dist.rvs = self._orig_rvs; ss.bernoulli.filter = self._orig_filter
@@ -180,6 +259,39 @@ class Recorder:
                 out.append((os.path.basename(fn), f.f_lineno))
             f = f.f_back
         return tuple(reversed(out))
+
+    def _snap(self, sim, au):
+        out = {}
+        for nm, dis in sim.diseases.items():
+            dn = name_of(dis)
+            if dn is None or dn not in self.facts: continue
+            fl = self.facts[dn]['flags']
+            out[nm] = (dis, dn, np.stack([np.asarray(getattr(dis, f).raw[au], dtype=bool) for f in fl], axis=1))
+        return out
+
+    def _wrap_outside(self, label, orig):
+        rec = self
+
+        def _c13_outside(obj, *a, **kw):
+            sim = getattr(obj, 'sim', None)
+            if rec.odepth > 0 and label == 'Tx.administer':
+                rec.last_tx_uids = np.asarray(a[0] if a else kw.get('uids')).copy()     # who the enclosing intervention treats
+            if rec.odepth > 0 or rec.cur is not None or sim is None or rec.on_outside is None:
+                return orig(obj, *a, **kw)
+            rec.last_tx_uids = None
+            rec.odepth += 1
+            au = np.asarray(sim.people.auids).copy()
+            before = rec._snap(sim, au)
+            seq0 = rec.seq
+            try:
+                out = orig(obj, *a, **kw)
+            finally:
+                rec.odepth -= 1
+            after = rec._snap(sim, au)
+            rec.on_outside(dict(label=label, obj=obj, args=(a, kw), result=out, auids=au, before=before, after=after, tx_uids=rec.last_tx_uids,
+                                ti=int(sim.ti), mixed=rec.seq != seq0))
+            return out
+        return _c13_outside
 
     def _wrap(self, C, dname, meth, orig):
         rec = self
